@@ -278,6 +278,10 @@ WHAT = {
 
 
 def run(ctx):
+    if ctx.replay:
+        # a replay file records the seed that generated the failing case; re-run deterministically
+        import json
+        ctx.seed = int(json.load(open(ctx.replay)).get("seed", ctx.seed))
     proof = core.proof_stage(PID, extra_targets=["Reserve/Extract.vo"], tier=ctx.tier)
     for p in proof["problems"]:
         core.log("proof-stage problem:", p)
